@@ -18,6 +18,327 @@ def FitsRanges (c : MemoCfg) (src : Src) (ranges : List PRange) : Prop :=
    | some L => L < c.chunk * c.maxChunks
    | none => ∀ r ∈ ranges, r.stop + 1 < (c.chunk * c.maxChunks : Nat))
 
+namespace FP
+open ViewL
+
+/-- capacity hypothesis for a scan bounded by `limit`: every `wait` it issues is at an index
+`≤ limit`, whatever the consumer's `take` -/
+def CapLim (c : MemoCfg) (src : Src) (limit : Int) : Prop :=
+  match src.len with
+  | some L => L < c.chunk * c.maxChunks
+  | none => limit < ((c.chunk * c.maxChunks : Nat) : Int)
+
+theorem scanLoop_lim (c : MemoCfg) (hc : 0 < c.chunk) (src : Src) (limit : Int)
+    (hcap : CapLim c src limit) :
+    ∀ (take : Nat) (m : Memo) (index snap : Nat) (ok : Bool) (acc : List (Nat × Nat)),
+      m.src = src → SnapOk src index snap ok →
+      (Memo.scanLoop c take m index limit snap ok acc).1.src = src ∧
+      (Memo.scanLoop c take m index limit snap ok acc).2 =
+        acc.reverse ++ (List.range' index (min take (ub src.len limit - index).toNat)).map
+          (fun p => (p, src.digit p)) := by
+  intro take
+  induction take with
+  | zero =>
+    intro m index snap ok acc hm _
+    simp [Memo.scanLoop, hm]
+  | succ take ih =>
+    intro m index snap ok acc hm hs
+    unfold Memo.scanLoop
+    by_cases hstop : (!ok || decide ((index : Int) ≥ limit)) = true
+    · rw [if_pos hstop]
+      refine ⟨hm, ?_⟩
+      have : min (take + 1) (ub src.len limit - index).toNat = 0 := by
+        simp only [Bool.or_eq_true, Bool.not_eq_true', decide_eq_true_eq] at hstop
+        rcases hstop with h | h
+        · obtain ⟨L, hL, hle⟩ := hs.ended h
+          simp only [ub, hL]; omega
+        · cases hl : src.len <;> simp only [ub] <;> omega
+      rw [this]; simp
+    · rw [if_neg hstop]
+      simp only [Bool.or_eq_true, Bool.not_eq_true', decide_eq_true_eq, not_or, Bool.not_eq_false] at hstop
+      obtain ⟨hok, hlim⟩ := hstop
+      have hidx : index < snap := by
+        have := hs.ok_eq; rw [hok] at this; simpa using this.symm
+      have hbelow := hs.below hok
+      by_cases ht : take = 0
+      · simp only [ht, if_true]
+        refine ⟨hm, ?_⟩
+        have : min (0 + 1) (ub src.len limit - index).toNat = 1 := by
+          cases hl : src.len with
+          | none => simp only [ub]; omega
+          | some L => have := hbelow L hl; simp only [ub]; omega
+        rw [this]; simp [hm]
+      · simp only [ht, if_false]
+        have hcnt : min (take + 1) (ub src.len limit - index).toNat
+            = min take (ub src.len limit - ((index + 1 : Nat) : Int)).toNat + 1 := by
+          cases hl : src.len with
+          | none => simp only [ub]; omega
+          | some L => have := hbelow L hl; simp only [ub]; omega
+        rw [hcnt, List.range'_succ]
+        by_cases hsn : index + 1 = snap
+        · rw [if_pos hsn]
+          have hcapw : Cap c m.src (index + 1) := by
+            unfold CapLim at hcap; unfold Cap
+            rw [hm]
+            cases hl : src.len with
+            | none => rw [hl] at hcap; simp only at hcap ⊢; omega
+            | some L => rw [hl] at hcap; exact hcap
+          obtain ⟨m', snap', ok', hw, hm', hs'⟩ := wait_snapOk c m (index + 1) hc hcapw
+          rw [hw]
+          simp only
+          rw [hm] at hm' hs'
+          have := ih m' (index + 1) snap' ok' ((index, m.src.digit index) :: acc) hm' hs'
+          refine ⟨this.1, ?_⟩
+          rw [this.2]
+          simp [hm]
+        · rw [if_neg hsn]
+          have hs' : SnapOk src (index + 1) snap ok := by
+            refine ⟨?_, hs.below, ?_⟩
+            · rw [hok]; simp; omega
+            · intro h; rw [hok] at h; cases h
+          have := ih m (index + 1) snap ok ((index, m.src.digit index) :: acc) hm hs'
+          refine ⟨this.1, ?_⟩
+          rw [this.2]
+          simp [hm]
+
+theorem scan_lim (c : MemoCfg) (hc : 0 < c.chunk) (m : Memo) (index limit : Int) (take : Nat)
+    (hidx : 0 ≤ index) (hcap0 : CapLim c m.src index) (hcap : CapLim c m.src limit) :
+    ∃ m', m.scan c index limit take =
+        .ok (m', (List.range' index.toNat (min take (ub m.src.len limit - index).toNat)).map
+          (fun p => (p, m.src.digit p))) ∧ m'.src = m.src := by
+  unfold Memo.scan
+  rw [if_neg (by omega)]
+  by_cases ht : take = 0
+  · rw [if_pos ht]
+    exact ⟨m, by simp [ht], rfl⟩
+  · rw [if_neg ht]
+    have hcapw : Cap c m.src index.toNat := by
+      unfold CapLim at hcap0; unfold Cap
+      cases hl : m.src.len with
+      | none => rw [hl] at hcap0; simp only at hcap0 ⊢; omega
+      | some L => rw [hl] at hcap0; exact hcap0
+    obtain ⟨m', snap', ok', hw, hm', hs'⟩ := wait_snapOk c m index.toNat hc hcapw
+    rw [hw]
+    simp only
+    have := scanLoop_lim c hc m.src limit hcap take m' index.toNat snap' ok' [] hm' hs'
+    refine ⟨_, ?_, this.1⟩
+    congr 1
+    apply Prod.ext
+    · rfl
+    · simp only
+      rw [this.2]
+      have : ((index.toNat : Nat) : Int) = index := by omega
+      rw [this]
+      simp
+
+/-- forward traversal of a value whose window has an upper bound `h`: on an infinite source it
+only needs `h` within capacity, whatever the window's start and the consumer's `take` -/
+theorem forward_bounded (c : MemoCfg) (m : Memo) (v : Val3) (lo h : Int) (take : Nat)
+    (hrep : Rep3 v ⟨lo, some h⟩) (hc : 0 < c.chunk)
+    (hmax : ((c.chunk * c.maxChunks : Nat) : Int) ≤ maxInt) (hcap : CapLim c m.src h) :
+    ∃ m', v.forward c m take = .ok (m', Spec.windowList m.src.len m.src.digit ⟨lo, some h⟩ take)
+      ∧ m'.src = m.src := by
+  obtain ⟨hst, hsp⟩ := hrep
+  simp only at hst hsp
+  unfold Val3.forward specScan
+  cases hspv : v.spec with
+  | nil =>
+    rw [hspv] at hsp
+    obtain ⟨h', hh, hle⟩ := hsp
+    refine ⟨m, ?_, rfl⟩
+    simp only
+    have : Spec.windowList m.src.len m.src.digit ⟨lo, some h⟩ take = [] := by
+      unfold Spec.windowList Spec.upper
+      simp only [Option.some.injEq] at hh
+      subst hh
+      cases hl : m.src.len with
+      | none =>
+        simp only
+        have : min take (h - ((max lo 0).toNat : Int)).toNat = 0 := by omega
+        rw [this]; simp
+      | some L =>
+        simp only
+        have : min take (min h (L : Int) - ((max lo 0).toNat : Int)).toNat = 0 := by omega
+        rw [this]; simp
+    rw [this]
+  | memo =>
+    rw [hspv] at hsp
+    cases hsp
+  | limited l =>
+    rw [hspv] at hsp
+    obtain ⟨hh, hl0⟩ := hsp
+    simp only [Option.some.injEq] at hh
+    subst hh
+    simp only
+    have hc0 : CapLim c m.src (min v.start h) := by
+      unfold CapLim at hcap ⊢
+      cases hl : m.src.len with
+      | none => rw [hl] at hcap; simp only at hcap ⊢; omega
+      | some L => rw [hl] at hcap; exact hcap
+    have hc1 : CapLim c m.src (min maxInt h) := by
+      unfold CapLim at hcap ⊢
+      cases hl : m.src.len with
+      | none => rw [hl] at hcap; simp only at hcap ⊢; omega
+      | some L => rw [hl] at hcap; exact hcap
+    obtain ⟨m', hscan, hm'⟩ := scan_lim c hc m (min v.start h) (min maxInt h) take (by omega) hc0 hc1
+    refine ⟨m', ?_, hm'⟩
+    rw [hscan]
+    congr 2
+    unfold Spec.windowList Spec.upper
+    simp only
+    rw [hst]
+    unfold CapLim at hcap
+    by_cases hle : max lo 0 ≤ h
+    · have : min (max lo 0) h = max lo 0 := by omega
+      rw [this]
+      congr 2
+      cases hl : m.src.len with
+      | none => rw [hl] at hcap; simp only [ub] at hcap ⊢; omega
+      | some L => rw [hl] at hcap; simp only [ub] at hcap ⊢; omega
+    · have h1 : min take (ub m.src.len (min maxInt h) - min (max lo 0) h).toNat = 0 := by
+        cases hl : m.src.len <;> simp only [ub] <;> omega
+      rw [h1]
+      cases hl : m.src.len with
+      | none =>
+        simp only
+        have : min take (h - ((max lo 0).toNat : Int)).toNat = 0 := by omega
+        rw [this]; simp
+      | some L =>
+        simp only
+        have : min take (min h (L : Int) - ((max lo 0).toNat : Int)).toNat = 0 := by omega
+        rw [this]; simp
+
+theorem apply_withStart (v : Val3) (s : Int) : ∃ v1, v.apply (.withStart s) = some (.ok v1) := by
+  cases v <;> exact ⟨_, rfl⟩
+
+theorem apply_withEnd (v : Val3) (e : Int) : ∃ v2, v.apply (.withEnd e) = some (.ok v2) := by
+  cases v <;> exact ⟨_, rfl⟩
+
+theorem minOpt_some (a : Option Int) (b : Int) : ∃ h, Spec.minOpt a b = some h ∧ h ≤ b := by
+  cases a with
+  | none => exact ⟨b, rfl, Int.le_refl _⟩
+  | some x => exact ⟨min x b, rfl, by omega⟩
+
+/-- one range: the feed is the part of the view's window inside the range -/
+theorem rangeFeed3_spec (c : MemoCfg) (m : Memo) (v : Val3) (w : Spec.Win) (r : PRange)
+    (hrep : Rep3 v w) (hc : 0 < c.chunk)
+    (hmax : ((c.chunk * c.maxChunks : Nat) : Int) ≤ maxInt) (hcap : CapLim c m.src r.stop) :
+    ∃ m', rangeFeed3 c m v r = some (m', Spec.windowList m.src.len m.src.digit
+        { lo := max w.lo r.start, hi := Spec.minOpt w.hi r.stop } ((r.stop - r.start).toNat + 1))
+      ∧ m'.src = m.src := by
+  obtain ⟨v1, h1⟩ := apply_withStart v r.start
+  obtain ⟨v2, h2⟩ := apply_withEnd v1 r.stop
+  have hr1 := step3 v v1 w _ hrep h1
+  have hr2 := step3 v1 v2 _ _ hr1 h2
+  simp only [toSpecOp, Spec.Win.apply] at hr2
+  obtain ⟨h, hh, hle⟩ := minOpt_some w.hi r.stop
+  rw [hh] at hr2 ⊢
+  have hcap' : CapLim c m.src h := by
+    unfold CapLim at hcap ⊢
+    cases hl : m.src.len with
+    | none => rw [hl] at hcap; simp only at hcap ⊢; omega
+    | some L => rw [hl] at hcap; exact hcap
+  obtain ⟨m', hf, hm'⟩ := forward_bounded c m v2 (max w.lo r.start) h ((r.stop - r.start).toNat + 1)
+    hr2 hc hmax hcap'
+  refine ⟨m', ?_, hm'⟩
+  unfold rangeFeed3
+  rw [h1]
+  simp only
+  rw [h2]
+  simp only
+  rw [hf]
+
+theorem toPairs_cons (r : PRange) (rs : List PRange) :
+    toPairs (r :: rs) = (r.start, r.stop) :: toPairs rs := rfl
+
+theorem shownOf_cons (len : Option Nat) (digit : Nat → Nat) (w : Spec.Win) (s e : Int)
+    (rest : List (Int × Int)) :
+    Spec.shownOf len digit w ((s, e) :: rest) =
+      Spec.windowList len digit { lo := max w.lo s, hi := Spec.minOpt w.hi e } ((e - s).toNat + 1)
+        ++ Spec.shownOf len digit w rest := by
+  simp [Spec.shownOf]
+
+/-- all ranges, threading the memoizer state (only its source matters) -/
+theorem feeds_spec (c : MemoCfg) (src : Src) (v : Val3) (w : Spec.Win) (hrep : Rep3 v w)
+    (hc : 0 < c.chunk) (hmax : ((c.chunk * c.maxChunks : Nat) : Int) ≤ maxInt) :
+    ∀ (ranges : List PRange) (m : Memo), m.src = src → (∀ r ∈ ranges, CapLim c src r.stop) →
+      ∃ m' feeds, fprintFeeds3 c m v ranges = some (m', feeds) ∧ m'.src = src ∧
+        feeds.flatten = Spec.shownOf src.len src.digit w (toPairs ranges) := by
+  intro ranges
+  induction ranges with
+  | nil =>
+    intro m hm _
+    exact ⟨m, [], rfl, hm, by simp [toPairs, Spec.shownOf]⟩
+  | cons r rs ih =>
+    intro m hm hcap
+    obtain ⟨m1, hf, hm1⟩ := rangeFeed3_spec c m v w r hrep hc hmax
+      (hm ▸ hcap r List.mem_cons_self)
+    obtain ⟨m2, fs, hfs, hm2, hfl⟩ := ih m1 (hm1.trans hm)
+      (fun r' hr' => hcap r' (List.mem_cons_of_mem _ hr'))
+    rw [hm] at hf
+    refine ⟨m2, Spec.windowList src.len src.digit
+      { lo := max w.lo r.start, hi := Spec.minOpt w.hi r.stop } ((r.stop - r.start).toNat + 1) :: fs,
+      ?_, hm2, ?_⟩
+    · unfold fprintFeeds3
+      rw [hf]
+      simp only
+      rw [hfs]
+    · rw [List.flatten_cons, hfl, toPairs_cons, shownOf_cons]
+
+/-- elements of a window with an upper bound -/
+theorem mem_windowList (len : Option Nat) (digit : Nat → Nat) (lo h : Int) (hi : Option Int)
+    (take : Nat) (hh : hi = some h) (x : Nat × Nat)
+    (hx : x ∈ Spec.windowList len digit ⟨lo, hi⟩ take) :
+    lo ≤ x.1 ∧ (x.1 : Int) < h ∧ x.2 = digit x.1 := by
+  subst hh
+  unfold Spec.windowList Spec.upper at hx
+  simp only at hx
+  obtain ⟨p, hp, rfl⟩ := List.mem_map.1 hx
+  rw [List.mem_range'_1] at hp
+  cases len with
+  | none => simp only at hp ⊢; refine ⟨?_, ?_, trivial⟩ <;> omega
+  | some L => simp only at hp ⊢; refine ⟨?_, ?_, trivial⟩ <;> omega
+
+theorem windowList_asc (len : Option Nat) (digit : Nat → Nat) (w : Spec.Win) (take : Nat) :
+    StrictAsc (Spec.windowList len digit w take) := by
+  unfold StrictAsc Spec.windowList
+  simp only
+  rw [List.pairwise_map]
+  exact List.pairwise_lt_range'
+
+theorem mem_shownOf (len : Option Nat) (digit : Nat → Nat) (w : Spec.Win) (rs : List PRange)
+    (x : Nat × Nat) (hx : x ∈ Spec.shownOf len digit w (toPairs rs)) :
+    x.2 = digit x.1 ∧ ∃ r ∈ rs, r.start ≤ x.1 ∧ (x.1 : Int) < r.stop := by
+  unfold Spec.shownOf toPairs at hx
+  rw [List.mem_flatMap] at hx
+  obtain ⟨p, hp, hx⟩ := hx
+  obtain ⟨r, hr, rfl⟩ := List.mem_map.1 hp
+  simp only at hx
+  obtain ⟨h, hh, hle⟩ := minOpt_some w.hi r.stop
+  have := mem_windowList len digit _ h _ _ hh x hx
+  exact ⟨this.2.2, r, hr, by omega, by omega⟩
+
+theorem shownOf_asc (len : Option Nat) (digit : Nat → Nat) (w : Spec.Win) (rs : List PRange)
+    (hd : Disj rs) : StrictAsc (Spec.shownOf len digit w (toPairs rs)) := by
+  induction rs with
+  | nil => simp [toPairs, Spec.shownOf, StrictAsc]
+  | cons r rs ih =>
+    unfold Disj at hd
+    rw [List.pairwise_cons] at hd
+    rw [toPairs_cons, shownOf_cons]
+    unfold StrictAsc
+    rw [List.pairwise_append]
+    refine ⟨windowList_asc _ _ _ _, ih hd.2, ?_⟩
+    intro a ha b hb
+    obtain ⟨h, hh, hle⟩ := minOpt_some w.hi r.stop
+    have h1 := mem_windowList len digit _ h _ _ hh a ha
+    obtain ⟨_, r', hr', h2, _⟩ := mem_shownOf len digit w rs b hb
+    have := hd.1 r' hr'
+    omega
+
+end FP
+
+open ViewL in
 /-- the feeds handed to the printer are the requested existing positions, range by range -/
 theorem fprint_feeds_spec (c : MemoCfg) (m : Memo) (b v : Val3) (chain : List ViewOp) (ranges : List PRange)
     (hb : IsBase3 b) (hv : applyChain3 b chain = some v)
@@ -25,7 +346,18 @@ theorem fprint_feeds_spec (c : MemoCfg) (m : Memo) (b v : Val3) (chain : List Vi
     ∃ m' feeds, fprintFeeds3 c m v ranges = some (m', feeds) ∧ m'.src = m.src ∧
       feeds.flatten = Spec.shownOf m.src.len m.src.digit (Spec.winOf (chain.map toSpecOp)) (toPairs ranges) ∧
       StrictAsc feeds.flatten := by
-  sorry
+  obtain ⟨hc, hmax, hcap⟩ := hfit
+  have hrep := chain3 chain b v {} (base3 b hb) hv
+  have hcaps : ∀ r ∈ ranges, FP.CapLim c m.src r.stop := by
+    intro r hr
+    unfold FP.CapLim
+    cases hl : m.src.len with
+    | none => rw [hl] at hcap; simp only at hcap ⊢; have := hcap r hr; omega
+    | some L => rw [hl] at hcap; exact hcap
+  obtain ⟨m', feeds, h1, h2, h3⟩ := FP.feeds_spec c m.src v _ hrep hc hmax ranges m rfl hcaps
+  refine ⟨m', feeds, h1, h2, h3, ?_⟩
+  rw [h3]
+  exact FP.shownOf_asc _ _ _ _ ((normal_iff ranges).1 hnorm).2
 
 /-- C10 end to end: Sprint/Fprint output = canonical layout of the shown positions -/
 theorem fprint_is_layout (c : MemoCfg) (m : Memo) (b v : Val3) (chain : List ViewOp) (ranges : List PRange)
@@ -37,6 +369,19 @@ theorem fprint_is_layout (c : MemoCfg) (m : Memo) (b v : Val3) (chain : List Vie
       r.accepted = Spec.layout (toPOpts .v3 s (positionsEnd ranges))
         (Spec.shownOf m.src.len m.src.digit (Spec.winOf (chain.map toSpecOp)) (toPairs ranges)) ∧
       r.written = r.accepted.length ∧ r.err = false := by
-  sorry
+  obtain ⟨m', feeds, h1, _, h3, h4⟩ := fprint_feeds_spec c m b v chain ranges hb hv hnorm hfit
+  have hd' : ∀ x ∈ feeds.flatten, x.2 ≤ 9 := by
+    intro x hx
+    rw [h3] at hx
+    rw [(FP.mem_shownOf _ _ _ _ x hx).1]
+    exact hd _
+  obtain ⟨r, hr, hacc, hwr, herr, _⟩ :=
+    print_layout .v3 s (positionsEnd ranges) feeds w st hw h4 hd'
+  refine ⟨r, ?_, ?_, hwr, herr⟩
+  · unfold fprint3
+    rw [h1]
+    simp only
+    rw [hr]
+  · rw [hacc, h3]
 
 end Sqroot.Proofs
